@@ -214,6 +214,63 @@ def source_tie(ctx):
                           + " || ".join(r[:500] for r in res))
 
 
+RATE_TIE_AUDIT = """Require Import TC.Float.Rate64 TC.Generated.RateGen TC.Float.RateTie.
+From Coq Require Import ZArith.
+Open Scope Z_scope.
+Check gen_rate_is_model : forall count period, gen_rate count period = from_count_and_period count period.
+Print Assumptions gen_rate_is_model.
+"""
+
+
+def rate_tie(ctx):
+    """T1b for Rate::from_count_and_period (Generated/RateGen.v written by tools/extract_limiter.py; Float/RateTie.v);
+    same three outcomes as source_tie."""
+    info = {"translator": "tools/extract_limiter.py", "generated": "coq/Generated/RateGen.v", "theorems": ["gen_rate_is_model"]}
+    ctx.coverage["source_tie_rate"] = info
+    rc, out = run([sys.executable, os.path.join(VERIF, "tools", "extract_limiter.py")], timeout=60)
+    if rc != 0:
+        info["status"] = "translator failed"
+        ctx.notes.append("T1b translator failed: " + out.strip()[-300:])
+        return
+    if "fallback rate" in out:
+        ctx.notes.append("T1b: " + " ".join(l for l in out.splitlines() if "fallback rate" in l)[:400])
+        info["fallback"] = True
+    with Lock("coq"):
+        coq_makefile()
+        rc, mout = run(["make", "-j%d" % NPROC, "Float/RateTie.vo"], cwd=COQ, timeout=900)
+    if rc == 0:
+        wd = ctx.workdir()
+        fn = os.path.join(wd, "rate_tie_audit.v")
+        with open(fn, "w") as f:
+            f.write(RATE_TIE_AUDIT)
+        rc2, aout = run(["coqc", "-q", "-noglob", "-Q", COQ, "TC", fn], timeout=300, cwd=wd)
+        ax = set(re.findall(r"^([A-Za-z_][A-Za-z0-9_.']*)\s*:", aout, re.M)) - {"gen_rate_is_model", "Axioms"}
+        if rc2 == 0 and ax <= AXIOM_ALLOW:
+            info["status"] = ("fallback (source not readable by the translator, text of the last verified tree): " if info.get("fallback") else "") + "proved: the translated rate constructor is the Flocq model for every (count, period); axioms (in the statement's Flocq definitions): " + (", ".join(sorted(ax)) or "none")
+        else:
+            info["status"] = "tie compiled but its audit failed"
+            ctx.broken.append("T1b audit: pinned statement of Float/RateTie.v no longer matches or depends on axioms outside the allow-list:\n" + "\n".join(aout.splitlines()[-10:]))
+        return
+    with Lock("coq"):
+        rc, dout = run(["make", "-j%d" % NPROC, "Float/RateDiff.vo"], cwd=COQ, timeout=900)
+    if rc != 0:
+        info["status"] = "tie not proved; the translated source does not compile against the model's vocabulary"
+        ctx.notes.append("T1b: Generated/RateGen.v does not compile; T2 is the only tie for the rate constructor in this run")
+        return
+    res = coq_eval(ctx, "ratediff", "Require Import TC.Float.RateDiff.", ["(N.of_nat (List.length rate_disagreements), firstn 4 rate_disagreements)"])
+    if res is None:
+        info["status"] = "tie not proved; lattice comparison did not evaluate"
+        ctx.notes.append("T1b: rate lattice comparison did not evaluate")
+    elif re.match(r"=\s*\(0%N", res[0].strip()):
+        info["status"] = "tie NOT proved for this tree, no differing input on the lattice; T2 decides"
+        ctx.notes.append("T1b: Float/RateTie.v no longer compiles against the re-translated Rate::from_count_and_period, but it agrees with the model on the "
+                         "whole comparison lattice (324 argument pairs); T2 is the only tie for the rate constructor in this run")
+    else:
+        info["status"] = "source rate constructor differs from the model"
+        ctx.broken.append("T1b: Rate::from_count_and_period as translated from the current source differs from the Flocq model the theorems are about "
+                          "(Float/RateTie.v no longer compiles); differing (count, period): " + res[0][:600])
+
+
 # ----------------------------------------------------------------------------- Coq
 
 def coq_makefile():
